@@ -506,8 +506,23 @@ pub fn base_cases() -> Vec<Case> {
         vec![ColSpec::new("ks", "t", "u", udt_ab())],
         vec![vec![v_fields(&[v_i32(1), v_str("b")])], vec![v_fields(&[None, None])], vec![None]],
         true,
-        vec!["(Option<UdtAB>,)", "(Option<CqlValue>,)"],
+        vec!["(Option<UdtAB>,)", "(Option<UdtLoose>,)", "(Option<UdtOrdered>,)", "(Option<CqlValue>,)"],
     ));
+    // UDT definitions a derived struct has to cope with: a field name repeated, a field missing, fields swapped,
+    // an excess field in the middle (well-formed frames; a target either type-checks and decodes or refuses)
+    for (name, fields, cells) in [
+        ("rows/udt-field-name-repeated", vec![("a", ColType::Int), ("b", ColType::Text), ("b", ColType::Text)], vec![v_i32(1), v_str("x"), v_str("y")]),
+        ("rows/udt-first-field-name-repeated", vec![("a", ColType::Int), ("a", ColType::Int), ("b", ColType::Text)], vec![v_i32(1), v_i32(2), v_str("y")]),
+        ("rows/udt-field-missing", vec![("a", ColType::Int)], vec![v_i32(1)]),
+        ("rows/udt-fields-swapped", vec![("b", ColType::Text), ("a", ColType::Int)], vec![v_str("x"), v_i32(1)]),
+        ("rows/udt-excess-field-in-the-middle", vec![("a", ColType::Int), ("zz", ColType::Uuid), ("b", ColType::Text)], vec![v_i32(1), None, v_str("x")]),
+    ] {
+        let t = ColType::Udt { keyspace: "ks".into(), name: "ab".into(), fields: fields.iter().map(|(n, t)| (n.to_string(), t.clone())).collect() };
+        // robustness only: a struct target renders its own fields, not the definition's, so no round-trip claim
+        let mut c = rows_case(name, vec![ColSpec::new("ks", "t", "u", t)], vec![vec![v_fields(&cells)], vec![v_fields(&vec![None; cells.len()])], vec![None]], true, vec![]);
+        c.oracle = false;
+        v.push(c);
+    }
     // custom types (option 0x0000 + class string)
     {
         const P: &str = "org.apache.cassandra.db.marshal.";
